@@ -211,6 +211,32 @@ pub fn fmt_v<K: KeyT, V: ValT>(v: &V) -> String {
     }
 }
 
+/// Direct oracle for the machine-level layout facts the model cannot exhibit: every element slot is
+/// aligned for its type, slots are pairwise distinct and below the control bytes, the control
+/// bytes are group-aligned.
+pub fn layout_oracle<K: KeyT, V: ValT>(m: &M<K, V>) -> Option<String> {
+    let d = m.verif_dump();
+    if d.is_singleton {
+        return None;
+    }
+    let align = std::mem::align_of::<(K, V)>();
+    let size = std::mem::size_of::<(K, V)>();
+    let ctrl = m.verif_ctrl_addr();
+    if ctrl % hashbrown::verif::GROUP_WIDTH != 0 {
+        return Some(format!("control bytes at {:#x} are not group-aligned", ctrl));
+    }
+    for i in 0..=d.bucket_mask {
+        let a = m.verif_bucket_addr(i);
+        if a % align != 0 {
+            return Some(format!("slot {} at {:#x} is not {}-byte aligned", i, a, align));
+        }
+        if size != 0 && a + size != ctrl - i * size {
+            return Some(format!("slot {} at {:#x} is not at its place below the control bytes", i, a));
+        }
+    }
+    None
+}
+
 pub fn state_of<K: KeyT, V: ValT>(m: &M<K, V>) -> String {
     let d = m.verif_dump();
     let mut slots = Vec::new();
@@ -900,6 +926,9 @@ impl<K: KeyT, V: ValT> Runner for MapRunner<K, V> {
         if let Some(why) = self.capacity_step(tgt, name, args, &ret.clone(), &before, &evs) {
             ret.push_str(&format!(" ORACLE-CAP({})", why.replace(' ', "_")));
         }
+        if let Some(why) = layout_oracle(self.get(tgt)) {
+            ret.push_str(&format!(" ORACLE-LAYOUT({})", why.replace(' ', "_")));
+        }
         // direct oracles on the implementation, independent of the model
         if let Some(why) = inv_oracle(&self.get(tgt).verif_dump()) {
             ret.push_str(&format!(" ORACLE-INV({})", why.replace(' ', "_")));
@@ -969,6 +998,7 @@ pub fn make_runner(coll: &str, drop: bool, lay: &str) -> Box<dyn Runner> {
         ("map", false, "big") => Box::new(MapRunner::<KC<Big>, VC>::new()),
         ("table", d, l) => crate::table_runner::make(d, l),
         ("set", d, l) => crate::set_runner::make(d, l),
+        ("serde", d, l) => crate::serde_runner::make(d, l),
         _ => panic!("no runner for coll={} drop={} lay={}", coll, drop, lay),
     }
 }
